@@ -127,6 +127,18 @@ T = {
              "a %= b on any CNL wrapper", ["C12"]),
  "M-C13-4": ("C13", "fill(scientific) writes an explicit exponent sign, also '+', which solve_scientific never counted (scaled_integer/to_chars.h)",
              "scientific layout with a non-negative decimal exponent in a buffer short enough that the significand is truncated, release build: one byte written at *last, ptr == last + 1", ["C13", "C14"]),
+ "M-C02-4": ("C02", "make_scaled_integer(fraction): the quotient's signedness taken from the dividend only (scaled_integer/named.h)",
+             "quotient() of an unsigned dividend and a signed divisor with a negative value: result rep unsigned, e.g. quotient(uint32{8}, int32{-2}) == 0", ["C02"]),
+ "M-C03-4": ("C03", "fine OP coarse comparison specialisation widens the coarse operand in a type derived from the LEFT rep (scaled_integer/operators.h)",
+             "operand with the smaller exponent on the left and reps that differ in signedness or width, boundary values", ["C03", "C12"]),
+ "M-C08-4": ("C08", "the neg_inf divide specialisation constrained to signed Lhs: unsigned dividends fall back to the truncating division (rounding/neg_inf_rounding_tag.h)",
+             "neg_inf, unsigned dividend with a signed divisor of a rank that makes the common type signed (uint8/uint16 with any signed, uint32 with int64), negative divisor, inexact division", ["C08"]),
+ "M-C15-4": ("C15", "digits_v<constant<Value>> computed from std::max(Value, -Value) (constant.h)",
+             "constant<> whose template argument has an unsigned type of at least int rank (5U, sizeof(x), std::size_t{..}): digits become the full type width; make_elastic_integer / make_elastic_scaled_integer of it too", ["C15", "C05"]),
+ "M-C18-4": ("C18", "generic popcount gains a run-time fast path __builtin_popcountll(static_cast<unsigned long long>(x)) under !is_constant_evaluated() (bit.h)",
+             "unsigned __int128 operand with a bit set in the upper 64 bits, evaluated at run time (constant evaluation stays correct, so static_assert tests cannot see it)", ["C18"]),
+ "M-C19-4": ("C19", "sqrt(scaled_integer) result type drops the operand's radix (scaled_integer/sqrt.h)",
+             "radix other than 2 with a non-zero even exponent", ["C19"]),
 }
 
 
@@ -164,6 +176,10 @@ HIST = {
  "M-C09-4": "missed at first: radix != 2 was declared undecided; radix 10 and 3 nearest conversions added",
  "M-C11-4": "missed at first: numeric_limits VALUES of single-word wide/static integers with narrow narrowest types added to the type facts",
  "M-C13-4": "missed at first: fill's consumption was taken from its assertions; the whole to_chars_positive with the real fill inlined is now decided per buffer size (significand characters pinned to a literal so that fill's character-driven loop folds), and the failing assertion / the extra character is reported",
+ "M-C08-4": "missed at first: neg_inf division kernels used one operand type for both sides; mixed operand-type pairs added (split into the two sign pieces of the divisor, with three new sign-aware rewrites in the normaliser)",
+ "M-C15-4": "missed at first: facts on digits_v<constant<V>> / make_elastic_integer / make_elastic_scaled_integer for unsigned, long and negative arguments added",
+ "M-C18-4": "missed at first: the 128-bit generic definitions are loops LLVM does not bring to intrinsic form, so no equivalence is claimed for them; a two-word dependence rule (both halves of a 128-bit operand are live in every utility's optimised kernel) now reports the truncating fast path",
+ "M-C19-4": "missed at first: radix facts for the result of sqrt(scaled_integer) added",
 }
 
 
